@@ -125,7 +125,7 @@ pub fn check(c: &Case) -> CheckResult {
     let mut o = Outcome::new();
     o.fp = fp_of(c);
     let Some(inv) = xf_inverse64(&c.ctm) else { return Err("HARNESS: singular CTM".into()) };
-    let mut dt = DrawTarget::new(c.w, c.h);
+    let mut dt = blank_target(c.w, c.h);
     dt.set_transform(&to_transform(&c.ctm));
     // (C10's harmless preludes between set_transform and the draw: anything cached per transform must survive them)
     harmless_prelude(&mut dt, (c.w * 7 + c.h * 13 + (c.alpha.to_bits() >> 9) as i32) as u32 % 16);
@@ -172,7 +172,7 @@ pub fn check(c: &Case) -> CheckResult {
     if c.w >= 3 && c.h >= 3 {
         let (cx0, cy0) = (1 + (c.w / 3), 1);
         for mode in [BlendMode::Src, BlendMode::SrcOver] {
-            let mut d2 = DrawTarget::new(c.w, c.h);
+            let mut d2 = blank_target(c.w, c.h);
             let mut cp = PathBuilder::new();
             cp.rect(cx0 as f32, cy0 as f32, (c.w - cx0) as f32, (c.h - cy0 - 1) as f32);
             d2.push_clip(&cp.finish());
@@ -208,7 +208,7 @@ pub fn check(c: &Case) -> CheckResult {
         // And inside a layer group whose origin is not the surface's (pushed under an offset clip rectangle): the
         // gradient is positioned by the surface's coordinates, not by the layer's. SrcOver onto the transparent
         // layer and an opaque pop reproduce the source pixels exactly.
-        let mut d3 = DrawTarget::new(c.w, c.h);
+        let mut d3 = blank_target(c.w, c.h);
         d3.push_clip_rect(IntRect::new(IntPoint::new(cx0, cy0), IntPoint::new(c.w, c.h - 1)));
         d3.push_layer(1.0);
         d3.set_transform(&to_transform(&c.ctm));
